@@ -94,7 +94,9 @@ def Spec.setPlayer (o : Obs) (parm val : Int) : Cell :=
     { stateErr := notPlaying, invalid := val < Doc.volLo, mayInvalid := val > Doc.volHi,
       succ := fun r o' => r == 0 && decide (o' = { o with smixVol := val }) }
   else if parm == XMP_PLAYER_MODE then
-    { stateErr := notPlaying, invalid := !inRange val XMP_MODE_AUTO XMP_MODE_ITSMP,
+    -- a mode under whose reading of the order list nothing of this module is playable may be refused
+    -- (never together with an effect)
+    { stateErr := notPlaying, invalid := !inRange val XMP_MODE_AUTO XMP_MODE_ITSMP, mayInvalid := true,
       succ := fun r o' => r == 0 && decide (o' = { o with mode := val }) }
   else if parm == XMP_PLAYER_VOICES then
     -- the general "-XMP_ERROR_STATE if the player is not in playing state" cannot apply to a voice count that
